@@ -470,8 +470,10 @@ pub fn gen_ins(g: &mut SplitMix, u: &Universe, depth: u32, owner: usize) -> Ins 
     let mut ty = gen_ty(g);
     let mut id = gen_id(g, u, ty);
     let choice = g.below(if depth > 0 { 16 } else { 12 });
-    let loads = matches!(choice, 0 | 1 | 2 | 3 | 6) || choice >= 15;
-    if loads && ty.kind() == Kind::Rec {
+    // loads of recipe compounds must be acyclic (a load cycle is infinite recursion by construction) and so must
+    // look-ups be here: a value that embeds its own previous value has no fixpoint to converge to (cyclic look-ups are C08's subject)
+    let refers = matches!(choice, 0..=6) || choice >= 15;
+    if refers && ty.kind() == Kind::Rec {
         if owner == 0 {
             ty = Ty::LA;
         } else {
